@@ -193,6 +193,8 @@ def delay_vectors_exhaustive(versions, levels):
 
 def eval_case(case):
     setup_ws()
+    # pinned cases carry the URIs of the checkout they were recorded in: re-anchor them in this checkout's scratch workspace
+    case = dict(case, events=[dict(e, uri=uri_of(e["doc"])) for e in case["events"]])
     req = make_request(case["events"], case["delays"], case["docs"], case.get("backpressure", 0))
     rep = hc.run_requests([req], nproc=1, timeout=120)[0]
     if "crash" in rep or "timeout" in rep:
